@@ -6,8 +6,8 @@ install() must run BEFORE pymeeus is imported.  It
     classes read the simulated clock in now()/utcnow()/today(); after the
     import of pymeeus the real module is put back (pymeeus modules keep the
     proxy in their globals, harness code keeps the real one);
-  * patches the reads of the real ``time`` module (time, time_ns, no-argument
-    localtime/gmtime, no-argument ctime/asctime are left alone: unused).
+  * patches the reads of the real ``time`` module (time, time_ns and the
+    no-argument forms of localtime/gmtime/strftime/ctime/asctime).
 Conversions *from a given timestamp* are left to libc and the per-run TZ.
 
 The clock is a float of POSIX seconds.  Every read consumes the next entry of
@@ -148,6 +148,29 @@ def _sim_gmtime(secs=None):
     return _real_gmtime(secs)
 
 
+_real_strftime = _time.strftime
+_real_ctime = _time.ctime
+_real_asctime = _time.asctime
+
+
+def _sim_strftime(fmt, t=None):
+    if t is None:
+        t = _real_localtime(CLOCK.read())
+    return _real_strftime(fmt, t)
+
+
+def _sim_ctime(secs=None):
+    if secs is None:
+        secs = CLOCK.read()
+    return _real_ctime(secs)
+
+
+def _sim_asctime(t=None):
+    if t is None:
+        t = _real_localtime(CLOCK.read())
+    return _real_asctime(t)
+
+
 _proxy = None
 _installed = False
 
@@ -169,6 +192,9 @@ def install():
     _time.time_ns = _sim_time_ns
     _time.localtime = _sim_localtime
     _time.gmtime = _sim_gmtime
+    _time.strftime = _sim_strftime
+    _time.ctime = _sim_ctime
+    _time.asctime = _sim_asctime
     _installed = True
 
 
